@@ -75,26 +75,46 @@ def probe_api(P, rule, s, i):
     return lib.py_parse(P, rule, s, i) + (" ## " + lib.py_parse_all(P, rule, s) if i == 0 else "")
 
 
+def importer_of(P, cls, rules):
+    """a second grammar class that IMPORTS rule r0 of `cls` through the library's decorator and has a repetition of its own
+    above it: a change in `cls` must reach it too"""
+    from abnf.grammars import misc
+    imp = misc.load_grammar_rules([("r0", rules[0])])(type("Imp" + cls.__name__, (P.Rule,), {"grammar": ["top = *r0 [ r0 ]"]}))
+    return imp("top")
+
+
 def run_history(P, gr, strings, mus, warm=True):
-    """returns (cls, rules, [(s, i, lparse outcome)], [parse / parse_all outcomes at the same positions])"""
+    """returns (cls, rules, [(s, i, lparse outcome)], [other observations at the same positions and right after each mutation])"""
     cls, rules = G.build(P, gr)
+    top = None
+    try:
+        top = importer_of(P, cls, rules)
+    except Exception:  # noqa - e.g. an undefined start rule cannot be imported
+        top = None
     if warm:
         for s in strings:
             for i in range(len(s) + 1):
                 lib.py_lparse(P, rules[0], s, i)
                 probe_api(P, rules[0], s, i)
+            if top is not None:
+                lib.py_lparse(P, top, s, 0)
     out = []
+    api = []
     for mu in mus:
         apply_mutation(P, cls, rules, mu)
-        if warm:  # probe between mutations as well (keeps caches warm across steps)
-            for s in strings[:3]:
-                lib.py_lparse(P, rules[0], s, 0)
-                probe_api(P, rules[0], s, 0)
-    api = []
+        # the FIRST requests after a mutation, through the match-listing entry point, then the others (compared with the
+        # fresh build, where nothing was cached before)
+        for s in strings[:3]:
+            api.append("after-mutation lparse: " + lib.py_lparse(P, rules[0], s, 0))
+            api.append("after-mutation api: " + probe_api(P, rules[0], s, 0))
+            if top is not None:
+                api.append("after-mutation importer: " + lib.py_lparse(P, top, s, 0))
     for s in strings:
         for i in range(len(s) + 1):
             out.append((s, i, lib.py_lparse(P, rules[0], s, i)))
             api.append(probe_api(P, rules[0], s, i))
+        if top is not None:
+            api.append("importer: " + lib.py_lparse(P, top, s, 0))
     return cls, rules, out, api
 
 
@@ -137,17 +157,24 @@ def run(ctx):
         (cls, rules, warm_out, warm_api), (_, _, cold_out, cold_api) = both
         base_cls, base_rules = G.build(P, gr)
         differs = False
-        for (s, i, w0), (_, _, c0), wa, ca in zip(warm_out, cold_out, warm_api, cold_api):
+        for (s, i, w0), (_, _, c0) in zip(warm_out, cold_out):
             evals += 1
-            w, c = (w0, c0) if w0 != c0 else (wa, ca)   # lparse first, then parse / parse_all at the same position
-            if w != c and rep < 3:
+            if w0 != c0 and rep < 3:
                 found = True
                 rep += 1
-                ctx.report("stale result after mutation %s: source=%r offset=%d warm=%r fresh-build=%r" % ([m[:2] for m in mus], s, i, w[:120], c[:120]),
+                ctx.report("stale result after mutation %s: source=%r offset=%d warm=%r fresh-build=%r" % ([m[:2] for m in mus], s, i, w0[:120], c0[:120]),
                            {"kind": "history", "grammar": gr, "strings": strings, "mutations": mus, "source": [ord(ch) for ch in s], "source_repr": repr(s),
-                            "offset": i, "warm": w, "fresh": c}, key="history:" + lib.digest([gr, mus, s, i]))
+                            "offset": i, "warm": w0, "fresh": c0}, key="history:" + lib.digest([gr, mus, s, i]))
             if not differs and lib.py_lparse(P, base_rules[0], s, i) != c0:
                 differs = True
+        for k, (wa, ca) in enumerate(zip(warm_api, cold_api)):
+            evals += 1
+            if wa != ca and rep < 3:
+                found = True
+                rep += 1
+                ctx.report("stale result after mutation %s (observation %d): warm=%r fresh-build=%r" % ([m[:2] for m in mus], k, wa[:140], ca[:140]),
+                           {"kind": "history", "grammar": gr, "strings": strings, "mutations": mus, "observation": k, "warm": wa, "fresh": ca},
+                           key="history-api:" + lib.digest([gr, mus, k]))
         changed += differs
         enc = lib.Encoder(P, rules)
         lines = enc.grammar_lines()
